@@ -33,6 +33,22 @@ class KMC:
     def x(self) -> int: ...
 class KMD:
     def p(self) -> "KMC": ...
+import collections.abc
+class PSZ(collections.abc.Sized, Protocol):
+    def foo(self) -> int: ...
+class PIT(collections.abc.Hashable, Protocol):
+    def bar(self) -> str: ...
+class KSZ1:
+    def foo(self) -> int: return 1
+    def __len__(self) -> int: return 0
+class KSZ2:
+    def foo(self) -> int: return 1
+class KIT1:
+    def bar(self) -> str: return ""
+    def __hash__(self) -> int: return 0
+class KIT2:
+    def bar(self) -> str: return ""
+    __hash__ = None
 class K1:
     def m(self) -> int: return 1
 class K1b:
@@ -77,6 +93,8 @@ PROTOCOLS = {
     "PR": {"step": ("ret", ("tuple", "PR", "int"))}, "PG[int]": {"get": ("ret", "int")}, "PG[str]": {"get": ("ret", "str")}, "PARG": {"f": ("arg", "int")},
     # mutually recursive protocols: PM needs a QM, QM needs a PM
     "PM": {"q": ("ret", "QM"), "x": ("ret", "int")}, "QM": {"p": ("ret", "PM")},
+    # protocols that inherit a member from a (non-protocol) ABC of collections.abc
+    "PSZ": {"foo": ("ret", "int"), "__len__": ("ret", "int")}, "PIT": {"bar": ("ret", "str"), "__hash__": ("ret", "int")},
 }
 CLASSES = {
     "K1": {"m": ("ret", "int")}, "K1b": {"m": ("ret", "bool")}, "K2": {"m": ("ret", "str")}, "K12": {"m": ("ret", "int"), "n": ("ret", "str")},
@@ -86,6 +104,7 @@ CLASSES = {
     "KARG1": {"f": ("arg", "int")}, "KARG2": {"f": ("arg", "str")}, "KARG3": {"f": ("arg", "object")}, "KARG4": {"f": ("arg", None)},
     # KMA/KMB fail (x returns str): KMB is not a QM either, because its p() returns a KMA, which is not a PM; KMC/KMD conform
     "KMA": {"q": ("ret", "KMB"), "x": ("ret", "str")}, "KMB": {"p": ("ret", "KMA")}, "KMC": {"q": ("ret", "KMD"), "x": ("ret", "int")}, "KMD": {"p": ("ret", "KMC")},
+    "KSZ1": {"foo": ("ret", "int"), "__len__": ("ret", "int")}, "KSZ2": {"foo": ("ret", "int")}, "KIT1": {"bar": ("ret", "str"), "__hash__": ("ret", "int")}, "KIT2": {"bar": ("ret", "str")},
 }
 SCALAR_SUB = {("bool", "int"), ("int", "object"), ("str", "object"), ("bool", "object")}
 
